@@ -160,6 +160,8 @@ const preludeFixed = `(set-option :produce-models true)
 (define-fun slice-ok ((s Slice)) Bool (and (<= 0 (s-off s)) (<= 0 (s-len s)) (<= (s-len s) (s-cap s)) (=> (= (s-base s) 0) (and (= (s-cap s) 0) (= (s-off s) 0)))))
 (define-fun go-div ((a Int) (b Int)) Int (ite (>= a 0) (ite (> b 0) (div a b) (- (div a (- b)))) (ite (> b 0) (- (div (- a) b)) (div (- a) (- b)))))
 (define-fun go-mod ((a Int) (b Int)) Int (- a (* b (go-div a b))))
+(declare-fun tag-kind (Int) Int)
+(define-fun any-wf ((x Any)) Bool (and (=> ((_ is any-str) x) (= (tag-kind (a-stag x)) 1)) (=> ((_ is any-int) x) (= (tag-kind (a-itag x)) 2)) (=> ((_ is any-bool) x) (= (tag-kind (a-btag x)) 3)) (=> ((_ is any-ref) x) (= (tag-kind (a-rtag x)) 4)) (=> ((_ is any-slice) x) (= (tag-kind (a-sltag x)) 5)) (=> ((_ is any-opq) x) (= (tag-kind (a-otag x)) 6))))
 (declare-fun str-itoa (Int) String)
 (declare-fun any-fmt (Any) String)
 (declare-fun err-msg (Any) String)
@@ -170,6 +172,7 @@ const preludeFixed = `(set-option :produce-models true)
 type Universe struct {
 	tags       map[string]int
 	tagList    []string
+	tagTypes   []types.Type
 	structSort map[string]string // type string -> sort name
 	structDecl []string          // declaration lines in dependency order
 	structInfo map[string]*types.Struct
@@ -195,6 +198,7 @@ func (u *Universe) tag(t types.Type) int {
 	n := len(u.tags) + 1
 	u.tags[k] = n
 	u.tagList = append(u.tagList, k)
+	u.tagTypes = append(u.tagTypes, t)
 	return n
 }
 
@@ -444,6 +448,28 @@ func (u *Universe) unbox(x string, t types.Type) string {
 		return sx(u.structUnboxFn(t), sx("a-opq", x))
 	}
 	return sx("a-opq", x)
+}
+
+// tagKind: which Any constructor carries values of this dynamic type.
+func tagKind(t types.Type) int {
+	switch tt := t.Underlying().(type) {
+	case *types.Basic:
+		switch {
+		case tt.Info()&types.IsBoolean != 0:
+			return 3
+		case tt.Info()&types.IsString != 0:
+			return 1
+		case tt.Info()&types.IsInteger != 0:
+			return 2
+		default:
+			return 6
+		}
+	case *types.Pointer, *types.Map, *types.Chan, *types.Signature:
+		return 4
+	case *types.Slice:
+		return 5
+	}
+	return 6
 }
 
 // comparable reports whether values of dynamic type t may be compared with ==.
